@@ -27,7 +27,12 @@ def _main_check(ctx: Ctx) -> None:
 
     fi, loop, m, wt = midi.writer_table(p)
     ctx.analysed(fi)
-    ctx.floor("writer branches emitting a mido message", len(wt), 5)
+    for T_ in ("NOTE_ON", "NOTE_OFF", "TIME_SIGNATURE", "KEY_SIGNATURE", "CONTROL_CHANGE"):
+        ctx.require("KINDS", f"{fi.qualname}: a branch selected by `message_type == {T_}` writes a mido message", 1 if T_ in wt else 0, 1, function=fi.qualname,
+                    construct=f"the writer has no branch that emits {T_} events", message=f"branches found for {sorted(str(k) for k in wt)}: {T_} events are not written to the file",
+                    file=fi.file, node=loop)
+    if len(wt) < 5:
+        return
     # --- ACC2
     # the delta buffer by role: the variable the emitted mido messages take their `time=` from
     buf = aug = None
